@@ -307,3 +307,66 @@ func TestKnown(t *testing.T) {
 		fmt.Println("KNOWN-REPRODUCED KF-C05-1")
 	}
 }
+
+// TestConcurrentTrees: the loggers of a generated derivation tree are used from several goroutines
+// at the same time (every goroutine logs through its own share of the events, repeatedly): each
+// destination receives exactly the lines it receives when the same events are emitted one after the
+// other. Loggers that share a context array (a parent and its Level/Sample/Hook children) are the
+// point; samplers are made stateless so that the outcome does not depend on the order.
+func TestConcurrentTrees(t *testing.T) {
+	rapid.Check(t, func(rt *rapid.T) {
+		g := lp.NewG(rt, cfg())
+		p := g.Program(8, 6)
+		norm(p)
+		for i := range p.Steps {
+			if p.Steps[i].Kind == "sample" && p.Steps[i].Sampler != "nil" {
+				p.Steps[i].Sampler = "all"
+			}
+			for k := range p.Steps[i].Hooks {
+				if w := p.Steps[i].Hooks[k].Wrap; w == "nilptr" || w == "nilfield" {
+					p.Steps[i].Hooks[k].Wrap = "" // those two keep their bookkeeping in package variables
+				}
+			}
+		}
+		p.Order = nil
+		ng := rapid.IntRange(2, 6).Draw(rt, "G")
+		reps := rapid.IntRange(5, 40).Draw(rt, "reps")
+		seq := lp.RunConcurrent(p, 1, reps)
+		if seq.Panic != nil {
+			return // C01/C02's domain
+		}
+		conc := lp.RunConcurrent(p, ng, reps)
+		b, _ := json.Marshal(p)
+		rec.Case(b, len(p.Events) >= 2 && len(p.Steps) >= 2, "concurrent-tree", fmt.Sprintf("goroutines:%d", ng))
+		bad := ""
+		if conc.Panic != nil {
+			bad = fmt.Sprintf("a logging call panicked when the tree's loggers were used from %d goroutines: %v", ng, conc.Panic)
+		}
+		for d := 0; d < len(seq.Dests) && bad == ""; d++ {
+			want := map[string]int{}
+			for _, w := range seq.Dests[d] {
+				want[fmt.Sprintf("%d|%s", w.Level, w.Data)]++
+			}
+			if d >= len(conc.Dests) {
+				bad = fmt.Sprintf("destination %d missing in the concurrent run", d)
+				break
+			}
+			for _, w := range conc.Dests[d] {
+				k := fmt.Sprintf("%d|%s", w.Level, w.Data)
+				if want[k] == 0 {
+					bad = fmt.Sprintf("destination %d received %.300q from %d goroutines logging through the tree at once; emitted one after the other, no event produces that line (or not that often)", d, w.Data, ng)
+					break
+				}
+				want[k]--
+			}
+			for k, n := range want {
+				if n != 0 && bad == "" {
+					bad = fmt.Sprintf("destination %d: line %.300q arrives %d time(s) less than when the events are emitted one after the other", d, k, n)
+				}
+			}
+		}
+		if bad != "" {
+			fail(rt, "concurrent", p, bad)
+		}
+	})
+}
